@@ -74,6 +74,8 @@ type Expression interface {
 
 type Program struct {
 	Statements []Statement
+	// EOF is the end-of-input token; it carries the comments that follow the last statement
+	EOF token.Token
 }
 
 func (p *Program) WriteTo(cw *CodeWriter) {
@@ -83,6 +85,10 @@ func (p *Program) WriteTo(cw *CodeWriter) {
 		}
 		stmt.WriteTo(cw)
 	}
+	if len(p.Statements) > 0 {
+		cw.WriteNewline()
+	}
+	cw.WriteLeadingComments(p.EOF.LeadingComments)
 }
 
 // Statements
